@@ -22,7 +22,7 @@ EXPLANATION = (
 )
 RULE_TEXT = (
     "C12.a=C02.c; C12.b per clause index: kind(candidates)==kind(mutations)==kind(counts)==clause kind; C12.c DML target "
-    "== MERGE target; C12.f each generated statement names exactly its own clause's columns/values; C12.d helper TEMPORARY and dropped before execute returns; C12.e BEGIN..COMMIT/ROLLBACK bracket."
+    "== MERGE target; C12.f each generated statement names exactly its own clause's columns/values; C12.g the helper's select list carries every source column a clause reads, written with or without the source's name; C12.d helper TEMPORARY and dropped before execute returns; C12.e BEGIN..COMMIT/ROLLBACK bracket."
 )
 TRUSTED = ["CPython ast", "DuckDB temp tables are per connection", "statement descriptors mirror the pinned parser"]
 
@@ -37,14 +37,17 @@ def merge_descriptor():
         return node("Column", f"{t}.{c}", this=ident(c), table=ident(t))
     on = node("EQ", "on", this=col("TGT", "ID"), expression=col("SRC", "ID"))
     upd = lambda c: node("Update", expressions=Lst([node("EQ", this=col("TGT", c), expression=col("SRC", c))]))  # noqa: E731
+    ucol = lambda c: node("Column", c, this=ident(c))  # noqa: E731  (a source column written without its table)
+    upd2 = lambda c, c2, u: node("Update", expressions=Lst([node("EQ", this=col("TGT", c), expression=col("SRC", c)),  # noqa: E731
+                                                            node("EQ", this=col("TGT", c2), expression=ucol(u))]))
     ins = node("Insert", this=node("Tuple", expressions=Lst([col("TGT", "C2")])), expression=node("Tuple", expressions=Lst([col("SRC", "X2")])))
     whens = Lst([
         node("When", "w0", matched=Const(True), then=upd("V0")),
         node("When", "w1", matched=Const(True), then=node("Var", this=Const("DELETE"))),
         node("When", "w2", matched=Const(False), then=ins),
-        node("When", "w3", matched=Const(True), then=upd("V3"), condition=node("EQ", this=col("SRC", "FLAG"), expression=lit("1", False))),
+        node("When", "w3", matched=Const(True), then=upd2("V3", "W3", "U3"), condition=node("EQ", this=col("SRC", "FLAG"), expression=lit("1", False))),
         node("When", "w4", matched=Const(True), then=node("Var", this=Const("delete"))),
-        node("When", "w5", matched=Const(False), then=node("Insert", expression=node("Tuple", expressions=Lst([col("SRC", "X5"), col("SRC", "Y5")])))),
+        node("When", "w5", matched=Const(False), then=node("Insert", expression=node("Tuple", expressions=Lst([col("SRC", "X5"), ucol("Y5")])))),
     ])
     t = node("Table", "TGT", this=ident("TGT"))
     s = node("Table", "SRC", this=ident("SRC"))
@@ -52,7 +55,9 @@ def merge_descriptor():
 
 
 # the column / value names each clause's own payload consists of (every name belongs to exactly one clause)
-PAYLOAD = [{"V0"}, set(), {"C2", "X2"}, {"V3"}, set(), {"X5", "Y5"}]
+PAYLOAD = [{"V0"}, set(), {"C2", "X2"}, {"V3", "W3", "U3"}, set(), {"X5", "Y5"}]
+# the source columns each clause's statement reads (right-hand sides / inserted values), qualified or not
+SOURCE_VALUES = [{"V0"}, set(), {"X2"}, {"V3", "U3"}, set(), {"X5", "Y5"}]
 
 KIND = {"update": "updated", "delete": "deleted", "insert": "inserted", "update+cond": "updated", "delete(lower)": "deleted",
         "insert(no column list)": "inserted"}
@@ -86,6 +91,17 @@ def rule_ladders(ctx):
         if not ok:
             ctx.violation("C12.b", "transforms_merge", "_create_merge_candidates", f"CASE indices {cand_idx}", m.path,
                           f"the candidate CASE uses clause indices {cand_idx} for {n} clauses; each WHEN clause needs its own index in order")
+        # C12.g the helper carries every source column the mutation statements read
+        sel = txt[txt.upper().find("SELECT"):txt.upper().find("CASE")] if "CASE" in txt.upper() else ""
+        carried = set(re.findall(r"[A-Za-z_][A-Za-z_0-9]*", sel))
+        for i, need in enumerate(SOURCE_VALUES):
+            missing = sorted(need - carried)
+            ctx.ob("C12.g", f"the helper table carries the source columns clause {i} ({CLAUSES[i]}) reads: {sorted(need)}", not missing, m.path, str(missing))
+            if missing:
+                ctx.violation("C12.g", "transforms_merge", "_create_merge_candidates", f"clause {i} ({CLAUSES[i]}): source columns {missing} not carried", m.path,
+                              f"WHEN clause #{i} ({CLAUSES[i]}) reads the source column(s) {missing}, but the helper table the mutation statements "
+                              f"select from does not carry them (select list: {sorted(carried)[:12]}): the generated UPDATE/INSERT fails to bind "
+                              f"(or binds a target column of the same name)")
         temp = bool(re.search(r"CREATE\s+(OR\s+REPLACE\s+)?TEMP(ORARY)?\s+TABLE", txt, re.I))
         ctx.ob("C12.d", "helper table is TEMPORARY (invisible to other connections)", temp, m.path)
         if not temp:
